@@ -6,8 +6,12 @@ Open Scope Q_scope.
 (* same body as [sqrt_ok] of Props/C11.v (convertible) *)
 Definition sqrt_ok (sq : Q -> Q) : Prop := forall d, 0 <= d -> 0 <= sq d /\ sq d * sq d == d.
 
-(* The proofs below only use the oracle at the one discriminant the code feeds it. *)
-Definition sqrt_ok_at (sq : Q -> Q) (d : Q) : Prop := 0 <= d -> sq d * sq d == d.
+(* The proofs below only use the oracle at the one discriminant the code feeds it.
+   The numerically stable root formula (q := -(b + sign(b) s)/2, roots q/a and c/q) needs the
+   oracle to return the NON-NEGATIVE root: with s < 0 (e.g. c = 0, b < 0, s = b) q can be 0 and
+   both computed roots collapse to 0.  [sqrt_sq_at] is the sign-less form, enough for soundness. *)
+Definition sqrt_ok_at (sq : Q -> Q) (d : Q) : Prop := 0 <= d -> 0 <= sq d /\ sq d * sq d == d.
+Definition sqrt_sq_at (sq : Q -> Q) (d : Q) : Prop := 0 <= d -> sq d * sq d == d.
 
 Global Instance c_coord_proper p0 p1 p2 p3 : Proper (Qeq ==> Qeq) (c_coord p0 p1 p2 p3).
 Proof. intros a a' Ha. unfold c_coord. rewrite Ha. reflexivity. Qed.
@@ -70,22 +74,35 @@ Proof.
            { setoid_replace (cb * cb) with (4 * ca * cc) by (unfold disc in Ez; lra). field; auto. }
            rewrite Hc. field; auto.
         -- intros e. fold (inr (- cb / (2 * ca))). rewrite In_inr. tauto.
-      * assert (Hs : sq disc * sq disc == disc) by (apply Hsq; auto).
+      * destruct Hsq as [Hs0 Hs]; [auto|].
         set (s := sq disc) in *.
-        assert (Hc : cc == (cb * cb - s * s) / (4 * ca)).
-        { rewrite Hs. unfold disc. field; auto. }
-        assert (F : forall x, ca * x * x + cb * x + cc ==
-                              ca * (x - (- cb - s) / (2 * ca)) * (x - (- cb + s) / (2 * ca))).
-        { intros x. rewrite Hc. field; auto. }
-        destruct (Qltb ((- cb + s) / (2 * ca)) ((- cb - s) / (2 * ca))) eqn:Esw.
-        -- exists ((- cb + s) / (2 * ca)), ((- cb - s) / (2 * ca)). split.
+        set (q := - (1 # 2) * (cb + (if Qle_bool 0 cb then 1 else - (1)) * s)).
+        assert (Hq0 : ~ q == 0).
+        { unfold q. destruct (Qle_bool 0 cb) eqn:Eb.
+          - apply Qle_bool_iff in Eb.
+            intros Hq. assert (Hs1 : s == 0) by lra. rewrite Hs1 in Hs. lra.
+          - assert (Hb : cb < 0).
+            { apply Qnot_le_lt. intros Hb. apply Qle_bool_iff in Hb. congruence. }
+            lra. }
+        assert (Hqq : q * q + cb * q + ca * cc == 0).
+        { unfold q. unfold disc in Hs. destruct (Qle_bool 0 cb); lra. }
+        assert (F : forall x, ca * x * x + cb * x + cc == ca * (x - q / ca) * (x - cc / q)).
+        { intros x.
+          assert (Hc : cc == - (q * q + cb * q) / ca).
+          { apply Qmult_inj_r with ca; auto.
+            setoid_replace (- (q * q + cb * q) / ca * ca) with (- (q * q + cb * q)) by (field; auto).
+            lra. }
+          rewrite Hc. field; auto. }
+        clearbody q.
+        destruct (Qltb (cc / q) (q / ca)) eqn:Esw.
+        -- exists (cc / q), (q / ca). split.
            ++ intros x. rewrite F. ring.
            ++ intros e. rewrite in_app_iff.
-              fold (inr ((- cb + s) / (2 * ca))). fold (inr ((- cb - s) / (2 * ca))).
+              fold (inr (cc / q)). fold (inr (q / ca)).
               rewrite !In_inr. tauto.
-        -- exists ((- cb - s) / (2 * ca)), ((- cb + s) / (2 * ca)). split; auto.
+        -- exists (q / ca), (cc / q). split; auto.
            intros e. rewrite in_app_iff.
-           fold (inr ((- cb + s) / (2 * ca))). fold (inr ((- cb - s) / (2 * ca))).
+           fold (inr (cc / q)). fold (inr (q / ca)).
            rewrite !In_inr. tauto.
 Qed.
 
@@ -155,6 +172,27 @@ Lemma cubic_extrema_complete : forall sq p0 p1 p2 p3 t, sqrt_ok sq ->
   ~ (p3 + 3 * (p1 - p2) - p0 == 0 /\ p2 - 2 * p1 + p0 == 0) ->
   exists t', In t' (c_local_extrema sq p0 p1 p2 p3) /\ t' == t.
 Proof. intros sq p0 p1 p2 p3 t H. apply cubic_extrema_complete_at, sqrt_ok_at_of_ok, H. Qed.
+
+(* Why [sqrt_ok_at] asks for 0 <= sq d: with a negative "square root" the stable formula can lose a
+   root.  p = (0, 0, -1, 1): a = 12, b = -6, c = 0, disc = 36; with sq disc = -6 (whose square is 36)
+   q = -(b - s)/2 = 0, so e1 = 0/a = 0 and e2 = c/0 = 0, and the root 1/2 of the derivative is not
+   reported; the "exact" bounding range then misses the value -1/4 taken at 1/2. *)
+Lemma cubic_extrema_needs_nonneg_sqrt :
+  let sq := fun _ : Q => - (6) in
+  let p0 := 0 in let p1 := 0 in let p2 := - (1) in let p3 := 1 in
+  sqrt_sq_at sq (6 * (p2 - 2 * p1 + p0) * (6 * (p2 - 2 * p1 + p0))
+                 - 4 * (3 * (p3 + 3 * (p1 - p2) - p0)) * (3 * (p1 - p0))) /\
+  0 < 1 # 2 /\ 1 # 2 < 1 /\ c_dpoly p0 p1 p2 p3 (1 # 2) == 0 /\
+  ~ (p3 + 3 * (p1 - p2) - p0 == 0 /\ p2 - 2 * p1 + p0 == 0) /\
+  c_local_extrema sq p0 p1 p2 p3 = [] /\
+  ~ fst (c_bounding_range sq p0 p1 p2 p3) <= c_coord p0 p1 p2 p3 (1 # 2).
+Proof.
+  cbv zeta. split; [intros _; vm_compute; reflexivity|].
+  split; [reflexivity|]. split; [reflexivity|]. split; [vm_compute; reflexivity|].
+  split; [intros [A _]; vm_compute in A; discriminate|].
+  split; [vm_compute; reflexivity|].
+  intros A. vm_compute in A. apply A. reflexivity.
+Qed.
 
 (* every listed parameter is in (0,1): needs nothing about the oracle *)
 Lemma c_local_extrema_in_range sq p0 p1 p2 p3 e :
